@@ -208,7 +208,7 @@ NormEv(e) ==
        [] e.ev = "ExitConditionParameter" -> Ev(e.ev, q(e.args, {5, 6}))
        [] e.ev = "ExitConditionExpression" -> Ev(e.ev, <<Squeeze(e.args[1])>>)
        [] OTHER -> Ev(e.ev, e.args)
-SrcDoc(src) == CASE src[1] = "doc" -> DocAt(src[2]) [] src[1] = "kw" -> KwDoc(src[2], src[3]) [] src[1] = "wide" -> WideDoc [] src[1] = "dot" -> DotDoc(src[2])
+SrcDoc(src) == CASE src[1] = "doc" -> DocAt(src[2]) [] src[1] = "kw" -> KwDoc(src[2], src[3]) [] src[1] = "wide" -> WideDoc [] src[1] = "dot" -> DotDoc(src[2]) [] src[1] = "special" -> SpecialDoc(src[2])
 WalkOK == (Mode = "trace" /\ l >= 1 /\ Done /\ TR.src[1] # "none") =>
             LET want_evs == DocEv(SrcDoc(TR.src)) IN
             /\ Len(evs) = Len(want_evs)
